@@ -533,3 +533,70 @@ PROPS["C18"] = dict(
                "cross-thread isolation is Rust's thread_local! and is observed by the concurrent scenarios, not proved.",
     level_note="Trusted: Lean kernel; model of src/log/logger.rs and src/log/mod.rs (modelled, not verified) tied by suite c18.",
 )
+
+
+# ---------------------------------------------------------------------------------------------------
+# Session-3 additions (appended to the texts above so that evidence and MANIFEST describe what runs now).
+ADD = {
+    "C01": dict(
+        rule="Also (vii) a small request followed through the same buffer by a head of length cap/2-2..cap+1 (caps 64, 256, 8192), the first read ending 1, 5 or cap/4 bytes "
+             "inside the second head; and suite c03b (HttpConn::read_request on 1..8 concatenated messages incl. explicit zero lengths, chunked+zero length, Expect without length, "
+             "and pipelines of 180..700 messages): the connection-level read state after every request.",
+        level_note="Suite c03b ties the connection-level reader (HttpConn::read_request: read state after each request, next request starts after the body) as well."),
+    "C02": dict(
+        rule="Also every byte value at either end of a field value, alone and next to OWS (only SP, HT, CR, LF may be stripped); suite c01s: pipelines of requests through one connection buffer "
+             "incl. near-capacity heads after a small request."),
+    "C03": dict(
+        rule="Content-Length / Transfer-Encoding values padded with FF, VT, NUL, FS..US or DEL at either end. c03b: also chunked together with content-length: 0, and Expect without length, as last message.",
+        explanation="Props/C04Pipeline.lean: C03_boundary — for a well-formed head with a single valid Content-Length N followed by N body bytes and anything else, read_request + read_body_to_vec "
+                    "return exactly the body and leave exactly the following bytes (the next byte starts the next request); classify_plain / classify_plain_length discharge the classification hypothesis "
+                    "for explicitly described field lists. Props/CodeTables.lean: contentType_matches — ContentType::parse regenerated on a probe set around every variant and kernel-checked against the model."),
+    "C04": dict(
+        rule="Also requests answered by the server's own error responses (HTTP/1.0, oversized head, cookie without '=', non-numeric length) inside the sequences, and suite c03b.",
+        explanation="Props/C04Pipeline.lean (end-to-end, composing C02_accepts_wf, C03 classification, the connection model and the serialiser): C04_exchange (one exchange: exactly one handler call with "
+                    "exactly the body bytes sent, exactly the serialised answer on the wire, exactly the following bytes left unread), C04_pipeline (any number of such requests back to back, whatever follows: "
+                    "one call per request in order, the responses in order, connection ready again), C04_pipeline_eof (to the end of the connection); good_plain / good_plain_length show the hypotheses are met by "
+                    "ordinary requests; a concrete two-request pipeline is evaluated by the kernel.",
+        level_text=" The per-exchange theorems are lifted to whole pipelines of requests of unbounded length (C04_pipeline) for requests without interim responses, uploads to file or refusals."),
+    "C05": dict(
+        rule="Client scripts now also: explicit zero length followed by a second request, chunked together with a zero length, Expect without length.",
+        explanation="Props/C05Seq.lean: C05_misuse_silent (a call answered with ResponseNotSent / BodyNotRead / ResponseAlreadySent / BodyNotAvailable leaves the whole connection unchanged, for every call, "
+                    "state and input), C05_single_final (over every call sequence the number of final responses written never exceeds the number of requests taken on), C05_auto_continue."),
+    "C06": dict(
+        rule="A third of the File/TempFile bodies are longer on disk than declared; the scripted writer implements writev (poll_write_vectored spreads the accepted count over the buffers).",
+        explanation="Props/C06Chunked.lean: C06_parses_back_chunked — responses with a body of unknown length parse back through the strict parser and the independent chunk decoder to exactly the bytes the source "
+                    "delivered, one transfer-encoding: chunked, no content-length. Props/CodeTables.lean: reason_matches — reason_phrase(code) regenerated for all 900 codes and kernel-checked against the model."),
+    "C07": dict(
+        explanation="Props/C07Prefix.lean: C07_no_false_complete — no proper prefix of a complete output is accepted by the decoder as complete (decode_extend: acceptance is stable under extension of the input; "
+                    "the complete output decodes with nothing left over)."),
+    "C08": dict(
+        rule="Thorough tier only: suite c08s — a client stops reading for 12 s (and 1 s) in the middle of a 32 MiB response and resumes: exactly that one response must arrive, nothing may follow."),
+    "C09": dict(rule="Half of the cases with a completely sent declared body are followed by a second request on the same connection."),
+    "C10": dict(
+        rule="Also rst<N>: the client leaves the interim response unread and closes (reset = read error on the server) at the same offsets; suite c10r: the server's permit is revoked while a handler "
+             "owns an upload's file (alone and next to other connections): while the handler holds the request the connection must stay, and once a connection has ended its files must be gone."),
+    "C11": dict(
+        rule="Contents also with encoded block sizes 15..17, 255..257, 4095..4097, 65527, 65528 bytes (chunk-size digit boundaries), followed by a further event.",
+        explanation="Props/C11Format.lean: C11_format_partial — for every list of events with clean data (no CR, no trailing line break; custom types as the checked constructor accepts them, non-empty), each block "
+                    "followed by the blank line: the WHATWG parser dispatches exactly these events in order with exactly their types and data (multi-line data, field look-alikes, leading blanks, empty lines, empty data)."),
+    "C12": dict(rule="Kind v: a 200 000-byte upload that the handler answers without reading, the client half-closes after 3000 body bytes."),
+    "C13": dict(
+        rule="New phases: x (handler running on a request that announced its 70 000-byte body with Expect: the 100 Continue, the upload and the complete response must still happen), "
+             "f (handler owns an upload file of 100 000 bytes); c13e also with revocation 4.2 s (thorough: 9 s) into the failing-accept state."),
+    "C14": dict(rule="Also names that differ in exactly one bit of one byte (every ASCII byte x bits 0x20, 0x40, 0x01, 0x10), looked up and removed both ways."),
+    "C15": dict(rule="A third of the request cases have consumed fields (content-type, expect, transfer-encoding) in front of, between and behind up to 4 Cookie fields."),
+    "C16": dict(
+        explanation="Props/CodeTables.lean: monthLen_matches — month_len_days regenerated for every month of a 400-year cycle and kernel-checked against the model; monthLen_cycle lifts it to every year."),
+    "C17": dict(rule="Two thirds of the cases write through a writer that accepts 1 / 7 / 64 / 4096 bytes per call and answers every 2nd / 5th call with ErrorKind::Interrupted."),
+    "C18": dict(
+        rule="Handler results also Ok(get_body_and_reprocess) and Err carrying it; R phases: 280 (1200) rounds of set_global_logger racing the first logging call with no logger set (swept offsets): "
+             "the installed logger must receive the next event and its guard must drop without panic.",
+        explanation="Props/CodeTables.lean: tagOrder_matches — the order in which log() delivers a probe list of tags is regenerated by execution and kernel-checked against the model's stable priority sort."),
+    "C20": dict(
+        rule="Every constructor with an argument is executed on several arguments (plain, empty, with CR/LF, control bytes, 5000 bytes; one table row each). Suite c20w: requests the server answers with its own "
+             "error response (malformed, HTTP/1.0, oversized head, bad cookie, bad length, chunked) and handler answers 500/503/599/404/panic/over-limit, alone and after an ordinary request, on the wire; "
+             "the oracle requires connection: close on every 5xx that is sent and nothing after an error response."),
+}
+for _pid, _d in ADD.items():
+    for _k, _v in _d.items():
+        PROPS[_pid][_k] = (PROPS[_pid].get(_k, "") + " " + _v).strip()
